@@ -213,6 +213,14 @@ func siteInTop(c *Check, top *ssa.Function, call ssa.CallInstruction) ssa.Instru
 			}
 		}
 	}
+	// the literal is handed to a helper that runs it (`spawn(func() {…})`, an error group's Go)
+	for _, s := range engine.SitesIn(top) {
+		for _, a := range s.Common().Args {
+			if mc, ok := a.(*ssa.MakeClosure); ok && mc.Fn == ssa.Value(lit) {
+				return s
+			}
+		}
+	}
 	return nil
 }
 
